@@ -244,6 +244,22 @@ func VxC01Ack() {
 	vxCkptStub = true
 	vxCkptOutcome = func(string) int { return 2 }
 	defer func() { vxCkptStub = false }()
+	// a background upload pass may be in flight when the acknowledging call queues
+	// on the upload lock: it sampled the local position earlier, uploads the next
+	// file and advances the replica position, then releases the lock
+	if k+1 < n && vx.Fault("monitorPassInFlight") {
+		next := ltx.TXID(k + 1)
+		vxLockSyncHook = func() {
+			if c.data == nil {
+				c.data = map[[3]uint64][]byte{}
+			}
+			b := vx.FSReadFile(db.LTXPath(0, next, next))
+			c.data[vxKey(0, next, next)] = b
+			c.files = append(c.files, &ltx.FileInfo{Level: 0, MinTXID: next, MaxTXID: next, Size: int64(len(b))})
+			db.Replica.SetPos(ltx.Pos{TXID: next})
+		}
+		defer func() { vxLockSyncHook = nil }()
+	}
 	var err error
 	entry := vx.Choose("entry", 0, 2)
 	switch entry {
